@@ -1,5 +1,10 @@
 package vc
 
+import (
+	"fmt"
+	"os"
+)
+
 // State merging at call returns: the k returning paths of an inlined callee are folded into one state
 // whose path condition is  base ∧ (all definitional equalities of all paths) ∧ (g1 ∨ … ∨ gk)  where gi is
 // the conjunction of the non-definitional assumptions of path i; values and heap components become
@@ -148,6 +153,15 @@ func (x *Exec) mergeOutcomes(outs []Outcome, base *pcNode) []Outcome {
 			}
 		}
 		guards = append(guards, And(g...))
+	}
+	if os.Getenv("VCHECK_DEBUG") != "" {
+		for i := range guards {
+			gs := guards[i].String()
+			if len(gs) > 300 {
+				gs = gs[:300]
+			}
+			fmt.Fprintf(os.Stderr, "    [merge guard %d: %s]\n", i, gs)
+		}
 	}
 	for i := range guards {
 		guards[i] = x.define(merged, "path", guards[i])
